@@ -233,6 +233,8 @@ type Env struct {
 	Exit   *Exit
 	UserFn map[string]bool // names of user-supplied function parameters (name_0(args) is their i-th result)
 	FieldType func(string) types.Type
+	CellType  func(string) types.Type
+	UserSig   map[string]*types.Signature
 }
 
 func (e *Env) sub() *Env {
@@ -350,6 +352,20 @@ func (e *Env) ident(name string) (SVal, error) {
 	}
 	if v, ok := e.structVal(name); ok {
 		return v, nil
+	}
+	if e.CellType != nil {
+		if t := e.CellType(name); t != nil {
+			if _, isFunc := t.Underlying().(*types.Signature); !isFunc {
+				v := e.X.load(e.St, name, t, token.NoPos)
+				if e.Old {
+					if iv, ok := e.heapVal(name); ok {
+						return iv, nil
+					}
+				}
+				return v, nil
+			}
+			return mkU(q(e.X.D.constOf(name, "U"))), nil
+		}
 	}
 	if strings.HasPrefix(name, "result") {
 		if i, err := strconv.Atoi(strings.TrimPrefix(name, "result")); err == nil && e.Exit != nil && i < len(e.Exit.Results) {
@@ -779,6 +795,14 @@ func (e *Env) callExpr(ex *ast.CallExpr) (SVal, error) {
 				return mkBool(t), nil
 			}
 			return mkU(t), nil
+		}
+		if sig := e.UserSig[m[1]]; sig != nil {
+			idx, _ := strconv.Atoi(m[2])
+			if idx < sig.Results().Len() {
+				rt := sig.Results().At(idx).Type()
+				t := e.X.D.app(name, ats, asorts, sortOf(rt))
+				return e.X.unbox(e.St, t, rt), nil
+			}
 		}
 		return SVal{}, fmt.Errorf("user function result %s not used on this path", fname)
 	}
